@@ -4,8 +4,8 @@ from props.cligen import H, R, rnd_reply, NEG
 def cfg_str(mode="p", rfc=1, ttype="I", tls=1, resume=1, verify="peer", ver=13, reqreuse=0, prop="C11", ip=4, vcb=0):
     return "mode=%s,rfc=%d,type=%s,ip=%d,tls=%d,resume=%d,verify=%s,ver=%d,reqreuse=%d%s,prop=%s" % (mode, rfc, ttype, ip, tls, resume, verify, ver, reqreuse, ",vcb=1" if vcb else "", prop)
 
-def connect(user=(b"SECRETUSER01", b"SECRETPASS02"), auth=234, tls=True, bad_cert=False, garbage=False, pbsz=200, prot=200, greeting=220, login=(331, 230)):
-    groups = [R(b"%d hello" % greeting)]
+def connect(user=(b"SECRETUSER01", b"SECRETPASS02"), auth=234, tls=True, bad_cert=False, garbage=False, pbsz=200, prot=200, greeting=220, login=(331, 230), pre120=False):
+    groups = [(R(b"120 wait") + "," if pre120 else "") + R(b"%d hello" % greeting)]
     if tls:
         g = R(b"%d auth" % auth)
         if auth < 400:
